@@ -15,6 +15,7 @@
           changes the history; tids strictly increase for every clock; reopening changes no answer.
 -/
 import Proofs.FileStoreTop
+import Proofs.Mapping
 namespace Props.C04
 open ZodbModel ZodbModel.FileStore
 
@@ -109,6 +110,13 @@ theorem begin_tid_above_committed {s : FS} (h : Inv s) (now : Nat) :
   show ft.tid < _
   omega
 
+/-- `stateAt_mono` (DESIGN 3.1): what `loadBefore(·, b)` shows of an object is not changed by
+    committing further transactions with tid ≥ b — with `step_abs` and the monotone tids: no later
+    commit changes the snapshot below its own tid. -/
+theorem snapshot_stable (h₁ h₂ : History.History) (b oid : Nat) (hb : ∀ t ∈ h₂, b ≤ t.tid) :
+    History.stateAt (h₁ ++ h₂) b oid = History.stateAt h₁ b oid :=
+  Proofs.FileStoreHistory.stateAt_mono h₁ h₂ b oid hb
+
 /-! ### closing and reopening changes no answer -/
 
 /-- `reopen_same`: the index rebuilt by a forward scan of the file binds every oid to the same
@@ -182,5 +190,54 @@ example : FileStore.load exS 3 = .error .keyError := by decide             -- un
 example : (FileStore.iterator exS (some 3) (some 3) true).map (·.recs) = [[⟨1, some [7], some 1⟩]] := by
   decide
 example : (FileStore.undoLog exS 0 2).map (·.tid) = [4, 3] := by decide
+
+/-! ### MappingStorage
+
+    The same specification, the model of `MappingStorage` (`ZodbModel/Mapping.lean`: `_data`,
+    `_transactions` as sorted maps, `_tdata` as a dict). -/
+
+/-- every query of the MappingStorage model equals the `History` function on its abstraction -/
+theorem mapping_refines_history {m : Mapping.MS} (h : Proofs.Mapping.Inv m) :
+    (∀ oid b, Mapping.loadBefore m oid b = History.loadBefore (Mapping.abs m) oid b) ∧
+    (∀ oid serial, Mapping.loadSerial m oid serial = History.loadSerial (Mapping.abs m) oid serial) ∧
+    (∀ oid, Mapping.getTid m oid = History.getTid (Mapping.abs m) oid) ∧
+    Mapping.lastTransaction m = History.lastTransaction (Mapping.abs m) ∧
+    (∀ oid n, Mapping.history m oid n = History.history (Mapping.abs m) oid n) ∧
+    (∀ start stop, Mapping.iterator m start stop = History.iterator (Mapping.abs m) start stop) :=
+  ⟨Proofs.Mapping.loadBefore_refines h, Proofs.Mapping.loadSerial_refines h, Proofs.Mapping.getTid_refines h,
+   Proofs.Mapping.lastTransaction_refines h, Proofs.Mapping.history_refines h,
+   Proofs.Mapping.iterator_refines h⟩
+
+/-- begin (explicit tid above the last one, or ANY clock reading), store, finish, abort keep the
+    invariant, starting from the empty storage -/
+theorem mapping_step_preserves_inv {m : Mapping.MS} (h : Proofs.Mapping.Inv m) (op : Mapping.Op)
+    (hok : Proofs.Mapping.OpOk m op) : Proofs.Mapping.Inv (Mapping.step m op).1 :=
+  Proofs.Mapping.step_inv h op hok
+
+theorem mapping_init_inv : Proofs.Mapping.Inv Mapping.init := Proofs.Mapping.inv_init
+
+/-- only `finish` changes the history: it appends exactly the staged transaction -/
+theorem mapping_step_abs {m : Mapping.MS} (h : Proofs.Mapping.Inv m) (op : Mapping.Op) :
+    Mapping.abs (Mapping.step m op).1 = Mapping.abs m ∨
+    ∃ st, op = .finish ∧ m.txn = some st ∧
+      Mapping.abs (Mapping.step m op).1 =
+        Mapping.abs m ++ [Mapping.toTxn ⟨st.tid, st.user, st.desc, st.ext, st.tdata⟩] :=
+  Proofs.Mapping.step_abs h op
+
+/-- tids strictly increase in commit order, whatever the clock reads at `tpc_begin` -/
+theorem mapping_history_wf {m : Mapping.MS} (h : Proofs.Mapping.Inv m) : History.WF (Mapping.abs m) :=
+  Proofs.Mapping.abs_wf h
+
+/-- non-vacuity: two transactions (clock stalled), a duplicate store, queries at the boundaries -/
+def exM : Mapping.MS :=
+  [Mapping.Op.begin none 5 [] [] [], .store 1 0 [7], .store 2 0 [8], .finish,
+   .begin none 5 [] [] [], .store 1 5 [9], .store 1 5 [10], .finish].foldl
+    (fun m op => (Mapping.step m op).1) Mapping.init
+
+example : (Mapping.abs exM).map (·.tid) = [5, 6] := by decide
+example : Mapping.loadBefore exM 1 6 = .ok (some ([7], 5, some 6)) := by decide
+example : Mapping.loadBefore exM 1 7 = .ok (some ([10], 6, none)) := by decide
+example : Mapping.loadBefore exM 1 5 = .ok none := by decide
+example : Mapping.loadBefore exM 3 5 = .error .keyError := by decide
 
 end Props.C04
